@@ -31,7 +31,7 @@ var c05TokPool = []string{
 }
 
 var c05ExprPool = []string{
-	"a + b", "a <= b", "a <> b", "a << 2", "a >= b", "a >> 1", "a != b", "a < b", "(a", "a +", "'open", "/*c*/ 1", "Min(a,b)", "arr[1]", "a IS NULL", "a IS NOT NULL", "NOT a", "",
+	"a + b", "'a + b'", "'a'", "a", "\"a\" + 1", "a <= b", "a <> b", "a << 2", "a >= b", "a >> 1", "a != b", "a < b", "(a", "a +", "'open", "/*c*/ 1", "Min(a,b)", "arr[1]", "a IS NULL", "a IS NOT NULL", "NOT a", "",
 	"1 2", "@", "a AND", "a >= b OR c != d", "a NOT IN arr", "a IN arr", "-a", "a[", "a[1", "f(", "f()", "f(a,", "1.5e3 * 2", "'it''s' + s", "\"my var\" + 1", "a ^ 2", "x y", ")", "TRUE XOR p",
 	"a <= b AND b <> c AND c << 1 > 0", "  a  ", "a\n+\nb", "/* only */", "a /* c */ + /* d */ b", "b - a - 1", "a / 0", "s[0]", "Sum(1,2,3) = 6", "😀", "a + 😀",
 }
@@ -283,6 +283,11 @@ func buildC05(cfg *mon.Config) []*mon.Sub {
 				for _, a := range cp.pool {
 					for _, b := range cp.pool {
 						emit(cp.kind + "\x00\x00" + a + "\x01" + b)
+						if cp.kind == "expression-calculator" {
+							// the same pairs with one side handed over through the token API
+							emit(cp.kind + "\x0040\x00" + a + "\x01" + b)
+							emit(cp.kind + "\x0004\x00" + a + "\x01" + b)
+						}
 					}
 				}
 			}
